@@ -141,6 +141,7 @@ func (e *Exec) execSimple(st *State, fr *Frame, instr ssa.Instruction) {
 		e.nobj++
 		obj := &Object{ID: e.nobj, Name: fmt.Sprintf("chan#%d", e.nobj), Typ: in.Type()}
 		fr.Vals[in] = VChan{Obj: obj, Nil: False}
+		st.Ghost["closed:"+obj.Name] = VBool{False} // a new channel is open
 	case *ssa.MapUpdate:
 		e.mapUpdate(st, fr, in)
 	case *ssa.Lookup:
